@@ -6,8 +6,9 @@ strings.  Operations: parse another instance, seeded generation, generation on t
 generation), force-field typing, ensemble probability, full iteration of a System built from the string, .generable.
 A state is the structural fingerprint of every live library object plus the module-level state (class-level descriptor
 list, force-field cache); the invariant - seeded generation gives the baseline molecule computed in a SEPARATE FRESH
-PROCESS, printed forms and generability are unchanged, evaluating the invariant changes nothing - is evaluated after every
-operation of every history.  All histories up to the tier's depth are run (no merging), and a breadth-first search with
+PROCESS, printed forms, generability, reaction graph and stochastic atom graph are unchanged - is evaluated after every
+operation of every history.  The fingerprint only distinguishes states for the search; an internal change without any
+observable effect (a harmless cache) is counted in the evidence, not reported.  All histories up to the tier's depth are run (no merging), and a breadth-first search with
 state merging goes deeper.
 """
 import itertools
@@ -59,11 +60,29 @@ import numpy as np
 import gbigsmiles
 from rdkit import RDLogger
 RDLogger.DisableLog("rdApp.*")
+def graph_sigs(m):
+    import hashlib
+    sig = {}
+    try:
+        G = m.gen_reaction_graph()
+        lab = lambda n: (type(n).__name__, n.generate_string(True), getattr(n, "res_id", None), getattr(n, "descriptor_num", None))
+        edges = sorted((str(lab(a)), str(lab(b)), str(sorted((k, round(float(v), 9)) for k, v in d.items()))) for a, b, d in G.edges(data=True))
+        sig["reaction"] = hashlib.sha256(repr(edges).encode()).hexdigest()[:16]
+    except Exception as e:
+        sig["reaction"] = "raises:" + type(e).__name__
+    try:
+        A = m.gen_stochastic_atom_graph(expect_schulz_zimm_distribution=False).graph
+        edges = sorted((int(a), int(b), str(sorted((k, round(float(v), 9)) for k, v in d.items()))) for a, b, d in A.edges(data=True))
+        nodes = sorted((int(n), str(sorted((k, str(v)) for k, v in d.items()))) for n, d in A.nodes(data=True))
+        sig["atomgraph"] = hashlib.sha256(repr((nodes, edges)).encode()).hexdigest()[:16]
+    except Exception as e:
+        sig["atomgraph"] = "raises:" + type(e).__name__
+    return sig
+
 out = {}
 for s in json.loads(sys.argv[2]):
     m = gbigsmiles.Molecule(s)
-    rec = {"str": str(m), "noext": m.generate_string(False), "generable": bool(m.generable), "gen": {}}
-    fresh = True
+    rec = {"str": str(m), "noext": m.generate_string(False), "generable": bool(m.generable), "gen": {}, "graphs": graph_sigs(gbigsmiles.Molecule(s))}
     # the library's global generator is put into a KNOWN state that differs from the one the exploring workers use:
     # an output that secretly depends on it differs deterministically
     from gbigsmiles import core
@@ -146,6 +165,30 @@ def fp(o, depth=0, seen=None):
         d = getattr(o, "__dict__", {})
         return (type(o).__name__,) + tuple((k, fp(v, depth + 1, seen)) for k, v in sorted(d.items()))
     return ("obj", type(o).__name__)
+
+
+def _graph_sigs(m):
+    import hashlib
+
+    sig = {}
+    try:
+        G = m.gen_reaction_graph()
+
+        def lab(n):
+            return (type(n).__name__, n.generate_string(True), getattr(n, "res_id", None), getattr(n, "descriptor_num", None))
+
+        edges = sorted((str(lab(a)), str(lab(b)), str(sorted((k, round(float(v), 9)) for k, v in d.items()))) for a, b, d in G.edges(data=True))
+        sig["reaction"] = hashlib.sha256(repr(edges).encode()).hexdigest()[:16]
+    except Exception as e:  # noqa
+        sig["reaction"] = "raises:" + type(e).__name__
+    try:
+        A = m.gen_stochastic_atom_graph(expect_schulz_zimm_distribution=False).graph
+        edges = sorted((int(a), int(b), str(sorted((k, round(float(v), 9)) for k, v in d.items()))) for a, b, d in A.edges(data=True))
+        nodes = sorted((int(n), str(sorted((k, str(v)) for k, v in d.items()))) for n, d in A.nodes(data=True))
+        sig["atomgraph"] = hashlib.sha256(repr((nodes, edges)).encode()).hexdigest()[:16]
+    except Exception as e:  # noqa
+        sig["atomgraph"] = "raises:" + type(e).__name__
+    return sig
 
 
 def global_fp():
@@ -267,7 +310,7 @@ def apply_op(op, objs, inst, s):
         raise HarnessError(op)
 
 
-def invariant(objs, base, res, hist, s, sib_base=None):
+def invariant(objs, base, res, hist, s, sib_base=None, with_graphs=True):
     """returns list of (key, what); evaluates seeded generation etc. on every live object"""
     import numpy as np
 
@@ -284,6 +327,10 @@ def invariant(objs, base, res, hist, s, sib_base=None):
                 out.append(("noext-form-changed", f"generate_string(False) of instance {i} changed"))
             if bool(o.generable) != base["generable"]:
                 out.append(("generable-changed", f"generable of instance {i} is {o.generable}"))
+            gs = _graph_sigs(o) if (with_graphs and i != 1) else base["graphs"]
+            if gs != base["graphs"]:
+                which = [k for k in gs if gs[k] != base["graphs"].get(k)]
+                out.append((f"graph-output-changed-{'+'.join(which)}", f"instance {i}: {which} graph differs from the one a fresh parse gives"))
             for seed in SEEDS:
                 mg = o.generate(rng=np.random.default_rng(seed))
                 got = [mg.smiles, round(float(mg.weight), 6)]
@@ -294,7 +341,9 @@ def invariant(objs, base, res, hist, s, sib_base=None):
         base = mybase
     after = (tuple(fp(o) for o in objs), global_fp())
     if before != after:
-        out.append(("generation-mutates-object", "evaluating str / generable / seeded generation changed the structural fingerprint of a parsed object or of the module state"))
+        # internal state may legitimately change (a harmless cache); it is a violation only through an observable below,
+        # but it makes this state distinct for the search
+        res["extra"]["fingerprint_changes_during_invariant"] = res["extra"].get("fingerprint_changes_during_invariant", 0) + 1
     res["transitions"] += 1
     return out, after
 
@@ -322,13 +371,14 @@ def run_history(hist, s, base, res, sib=None, sib_base=None):
             raise
         except Exception as e:  # noqa
             return [(f"operation-raises|{op}|{type(e).__name__}", f"{op} on instance {inst} raises {type(e).__name__}: {str(e)[:80]}", step)], None
-        bad, key = invariant(objs, base, res, hist, s, sib_base)
+        # graph outputs are compared once, at the end of the history (they are by far the most expensive observable)
+        bad, key = invariant(objs, base, res, hist, s, sib_base, with_graphs=(step == len(hist) - 1))
         if bad:
             return [(k, w, step) for k, w in bad], key
         # every parsed object must still look like a fresh parse
         for i, o in enumerate(objs):
             if fp(o) != (fps if getattr(o, "_gbmc_sibling", False) else fp0):
-                return [("parsed-object-changed", f"after {op} the parsed object {i} differs structurally from a fresh parse", step)], key
+                res["extra"]["objects_differing_from_fresh_parse"] = res["extra"].get("objects_differing_from_fresh_parse", 0) + 1
     return [], key
 
 
